@@ -57,7 +57,12 @@ func vpH_C02_T_margin() {
 // record when vacant, refreshes and deletes only its own record, never preempts); the real instance is
 // stopped (every variant) and restarted at explorer-chosen points. At every flag change and at the end the
 // claim must be backed by the live record.
-func vpH_C02_T_churn() {
+func vpH_C02_T_churn() { vpC02Churn(1) }
+
+// thorough: the others perform two protocol-conforming actions
+func vpH_C02_T_churn2() { vpC02Churn(2) }
+
+func vpC02Churn(envActions int) {
 	H := time.Second
 	vpSetOpt("rand-fixed", 1)
 	st := vpNewStore("g", 3*H)
@@ -77,7 +82,7 @@ func vpH_C02_T_churn() {
 	cb.install(e)
 	// the others: up to two protocol-conforming actions at store-visible points
 	go func() {
-		for i := 0; i < 1; i++ {
+		for i := 0; i < envActions; i++ {
 			vpYieldLazy("env.other", 3*H)
 			switch {
 			case !st.live():
